@@ -191,7 +191,14 @@ Record state := mkState {
   g_inserted : list op;     (* every instance ever put in the buffer, newest first *)
   g_raised : list (nat * list op);  (* every batch ever raised: watcher, operations; newest first *)
   g_started : list nat;     (* ids of batches whose callback was entered, newest first *)
-  g_shutdowns : nat         (* shutdown events raised *)
+  g_shutdowns : nat;        (* shutdown events raised *)
+  g_discarded : list op;    (* V2: buffered operations dropped by the shutdown *)
+  g_failed : list nat;      (* numbers of the Enqueue calls that returned an error or panicked *)
+  g_taken : list op;        (* operations removed from the buffer in the current cycle, newest first *)
+  g_cycles : nat;           (* flush cycles begun *)
+  g_flush_ticks : nat;      (* flush ticks turned into a flush token by the loop *)
+  g_flush_calls : nat;      (* Flush() calls *)
+  g_flush_fired : nat       (* flush-ticker instants that have passed (delivered or dropped) *)
 }.
 
 #[export] Instance eta_ticker : Settable _ := settable! mkT <t_next; t_pending>.
@@ -202,7 +209,8 @@ Record state := mkState {
                      tk_audit; tickers_on; counted; waiting; woken; buffer; shut; target; tokens; leaked;
                      batches; cy_cur; cy_allow; cy_consumed; cy_open; last_flush; attempts;
                      next_call; next_bid; capacity_now; maxcap_now;
-                     g_inserted; g_raised; g_started; g_shutdowns>.
+                     g_inserted; g_raised; g_started; g_shutdowns; g_discarded; g_failed; g_taken;
+                     g_cycles; g_flush_ticks; g_flush_calls; g_flush_fired>.
 
 Definition init (c : cfg) : state :=
   {| now := 0; phase_ := PUninit; loop := LNotStarted; stop_req := false; stoppers := 0;
@@ -212,7 +220,8 @@ Definition init (c : cfg) : state :=
      tokens := 0; leaked := 0; batches := []; cy_cur := None; cy_allow := 0; cy_consumed := 0; cy_open := [];
      last_flush := None; attempts := []; next_call := 0; next_bid := 0;
      capacity_now := 0; maxcap_now := 0;
-     g_inserted := []; g_raised := []; g_started := []; g_shutdowns := 0 |}.
+     g_inserted := []; g_raised := []; g_started := []; g_shutdowns := 0; g_discarded := []; g_failed := []; g_taken := [];
+     g_cycles := 0; g_flush_ticks := 0; g_flush_calls := 0; g_flush_fired := 0 |}.
 
 (* ---------- small helpers ---------- *)
 
@@ -366,7 +375,7 @@ Definition do_enqueue (c : cfg) (s : state) (e : espec) : option (state * list o
   let id := next_call s in
   let s1 := s <| next_call := S id |> in
   match validate c s e with
-  | VReject r => Some (s1, [OEnqRet id r])
+  | VReject r => Some (s1 <| g_failed := id :: g_failed s |>, [OEnqRet id r])
   | VAccept w =>
       let o := mkOp id (e_obj e) w (e_cost e) (e_cost_done e) (e_batchable e) (e_dur e) in
       Some (s1 <| target := target_add (target s) (e_cost e) |>
@@ -391,13 +400,15 @@ Definition do_enq_insert (c : cfg) (s : state) (id : nat) : option (state * list
       let s1 := s <| counted := remove_call id (counted s) |> in
       if shut s then
         match c_gen c with
-        | V1 => Some (s1, [OEnqRet id RPanic])     (* send on closed channel *)
-        | V2 => Some (s1 <| target := target_sub (target s) (o_cost o) |>, [OEnqRet id RShutdown])
+        | V1 => Some (s1 <| g_failed := id :: g_failed s |>, [OEnqRet id RPanic])     (* send on closed channel *)
+        | V2 => Some (s1 <| target := target_sub (target s) (o_cost o) |> <| g_failed := id :: g_failed s |>,
+                      [OEnqRet id RShutdown])
         end
       else if (length (buffer s) <? c_bufcap c)%nat then
         Some (insert_op s1 o, [OEnqRet id ROk])
       else if c_errfull c then
-        Some (s1 <| target := target_sub (target s) (o_cost o) |>, [OEnqRet id RBufferFull])
+        Some (s1 <| target := target_sub (target s) (o_cost o) |> <| g_failed := id :: g_failed s |>,
+              [OEnqRet id RBufferFull])
       else
         Some (s1 <| waiting := waiting s ++ [o] |>, [])
   | _ => None
@@ -409,7 +420,8 @@ Definition do_enq_retry (c : cfg) (s : state) (id : nat) : option (state * list 
   | V2, Some o =>
       let s1 := s <| woken := remove_op id (woken s) |> in
       if shut s then
-        Some (s1 <| target := target_sub (target s) (o_cost o) |>, [OEnqRet id RShutdown])
+        Some (s1 <| target := target_sub (target s) (o_cost o) |> <| g_failed := id :: g_failed s |>,
+              [OEnqRet id RShutdown])
       else if (length (buffer s) <? c_bufcap c)%nat then
         Some (insert_op s1 o, [OEnqRet id ROk])
       else
@@ -436,7 +448,7 @@ Definition do_pause (s : state) : option (state * list obs) :=
   end.
 
 Definition do_flush (s : state) : option (state * list obs) :=
-  Some (s <| flush_tok := true |>, []).
+  Some (s <| flush_tok := true |> <| g_flush_calls := S (g_flush_calls s) |>, []).
 
 (* V2: cancel the context.  V1: Stop() — marks the phase, closes the stop channel (if
    Start ever made one) and then waits for the loop without holding the phase mutex *)
@@ -488,7 +500,8 @@ Definition interval_of (c : cfg) (k : tick) : Z :=
 Definition do_tick (c : cfg) (s : state) (k : tick) : option (state * list obs) :=
   let t := get_ticker s k in
   if tickers_on s && (t_next t =? now s) then
-    Some (set_ticker s k (mkT (t_next t + interval_of c k) true), [])
+    let s1 := match k with TkFlush => s <| g_flush_fired := S (g_flush_fired s) |> | _ => s end in
+    Some (set_ticker s1 k (mkT (t_next t + interval_of c k) true), [])
   else None.
 
 (* ---------- the processing loop ---------- *)
@@ -504,10 +517,11 @@ Definition do_loop_shutdown (c : cfg) (s : state) : option (state * list obs) :=
     | V2 =>
         (* buffer.shutdown(): list emptied, flag set, every waiter woken (Broadcast) *)
         Some (s1 <| buffer := [] |> <| cy_cur := None |> <| phase_ := PStopped |>
-                 <| woken := woken s ++ waiting s |> <| waiting := [] |>, [OEvShutdown])
+                 <| woken := woken s ++ waiting s |> <| waiting := [] |>
+                 <| g_discarded := buffer s ++ g_discarded s |>, [OEvShutdown])
     | V1 =>
         (* close(r.buffer): blocked senders panic; the content stays in the closed channel *)
-        Some (s1 <| waiting := [] |>,
+        Some (s1 <| waiting := [] |> <| g_failed := map o_id (waiting s) ++ g_failed s |>,
               map (fun o => OEnqRet (o_id o) RPanic) (waiting s) ++ [OEvShutdown])
     end
   else None.
@@ -562,7 +576,8 @@ Definition do_loop_cap (c : cfg) (s : state) : option (state * list obs) :=
 
 Definition do_loop_flushtick (s : state) : option (state * list obs) :=
   if loop_idle s && t_pending (tk_flush s) then
-    Some (s <| tk_flush := mkT (t_next (tk_flush s)) false |> <| flush_tok := true |>, [])
+    Some (s <| tk_flush := mkT (t_next (tk_flush s)) false |> <| flush_tok := true |>
+            <| g_flush_ticks := S (g_flush_ticks s) |>, [])
   else None.
 
 Definition head_cursor (s : state) : option nat :=
@@ -571,7 +586,8 @@ Definition head_cursor (s : state) : option nat :=
 Definition do_cycle_begin (c : cfg) (s : state) : option (state * list obs) :=
   if loop_idle s && flush_tok s then
     let s1 := s <| flush_tok := false |> <| loop := LCycle |> <| cy_consumed := 0 |>
-                <| cy_open := [] |> <| cy_cur := head_cursor s |>
+                <| cy_open := [] |> <| cy_cur := head_cursor s |> <| g_taken := [] |>
+                <| g_cycles := S (g_cycles s) |>
                 <| cy_allow := if c_limiter c then allowance c (capacity_now s) else 0 |> in
     Some (s1, (match c_gen c with V2 => [OEvFlushStart] | V1 => [] end)
               ++ (if c_limiter c then [OCapRead] else []))
@@ -599,7 +615,7 @@ Definition next_cursor (s : state) (i : nat) : option nat :=
 
 (* put a removed operation into its batch (both generations) *)
 Definition take_op (c : cfg) (s : state) (o : op) : state * list obs :=
-  let s1 := s <| cy_consumed := (cy_consumed s + o_cost o) mod u32 |> in
+  let s1 := s <| cy_consumed := (cy_consumed s + o_cost o) mod u32 |> <| g_taken := o :: g_taken s |> in
   if o_batchable o then
     let b := get_open (cy_open s1) (o_w o) ++ [o] in
     let mx := w_maxbatch (watcher c (o_w o)) in
@@ -607,6 +623,18 @@ Definition take_op (c : cfg) (s : state) (o : op) : state * list obs :=
       raise c (s1 <| cy_open := set_open (cy_open s1) (o_w o) [] |>) (o_w o) b
     else (s1 <| cy_open := set_open (cy_open s1) (o_w o) b |>, [])
   else raise c s1 (o_w o) [o].
+
+(* notFull.Signal(): the longest-waiting blocked caller is woken *)
+Definition signal_one (s : state) : state :=
+  match waiting s with
+  | [] => s
+  | x :: r => s <| waiting := r |> <| woken := woken s ++ [x] |>
+  end.
+
+(* buffer.remove() at the cursor *)
+Definition remove_at (s : state) (i : nat) : state :=
+  let s2 := s <| buffer := remove_nth i (buffer s) |> in
+  signal_one (s2 <| cy_cur := next_cursor s2 i |>).
 
 Definition visit_v2 (c : cfg) (s : state) : option (state * list obs) :=
   match cy_cur s with
@@ -628,13 +656,7 @@ Definition visit_v2 (c : cfg) (s : state) : option (state * list obs) :=
                 Some (s <| cy_cur := next_cursor s (S i) |>, [])
             | Some s1 =>
                 (* remove(): unlink, signal one waiter, cursor stays on the successor *)
-                let s2 := s1 <| buffer := remove_nth i (buffer s1) |> in
-                let s3 := s2 <| cy_cur := next_cursor s2 i |> in
-                let s4 := match waiting s3 with
-                          | [] => s3
-                          | x :: r => s3 <| waiting := r |> <| woken := woken s3 ++ [x] |>
-                          end in
-                Some (take_op c s4 o)
+                Some (take_op c (remove_at s1 i) o)
             end
       end
   end.
